@@ -85,13 +85,14 @@ class Contract:
         self._exprs = {}
 
     def expr(self, src):
-        e = self._exprs.get(src)
+        key = (src, tuple(sorted(self.rename.items())) if self.rename else None)
+        e = self._exprs.get(key)
         if e is None:
             e = ast.parse(src.strip(), mode="eval").body
             if self.rename:
                 e = _Renamer(self.rename).visit(e)
                 ast.fix_missing_locations(e)
-            self._exprs[src] = e
+            self._exprs[key] = e
         return e
 
 
@@ -551,7 +552,7 @@ class ContractSet:
             if base is not None:
                 roles.update(base.local_roles)
         roles.update(c.local_roles)
-        loops = self.merged_loops(c)
+        loops = {k_: dict(v_) for k_, v_ in self.merged_loops(c).items()}
         c.rename = {}
         c.loops_eff = loops
         c._exprs = {}
@@ -585,13 +586,36 @@ class ContractSet:
                 if (role.startswith("loop")) != (phase == 1):
                     continue
                 new = self.resolve_role(c, fnode, order, renamed_loops(), role)
+                if (new is None or new in roles and new not in missing) and self.only_in_hints(c, loops, name):
+                    # the local is mentioned by optional intermediate assertions (step_hints) only: drop those hints
+                    for lc_ in loops.values():
+                        if "step_hints" in lc_:
+                            lc_["step_hints"] = {k_: v_ for k_, v_ in lc_["step_hints"].items()
+                                                 if not re.search(r"\b%s\b" % re.escape(name), v_)}
+                    continue
                 if new is None or new in roles and new not in missing:
-                    raise Unsupported(f"{c.target}: the clauses name the local `{name}`, which the function no longer has, and its role "
-                                      f"`{role}` does not identify one replacement (the contract must be re-attached)")
+                    # left unresolved: a clause that needs the name finds it among the exported ghosts of a helper loop, or is outside the subset
+                    continue
                 c.rename[name] = new
         c.loops_eff = renamed_loops()
 
-    def resolve_role(self, c, fnode, order, loops, role):
+    @staticmethod
+    def only_in_hints(c, loops, name):
+        pat = re.compile(r"\b%s\b" % re.escape(name))
+        texts = list(c.ensures.values()) + list(c.post_lets.values()) + list(c.requires) + list(c.lets.values()) + list(c.assigns.values())
+        for spec in c.raises.values():
+            if isinstance(spec, dict):
+                texts += list(spec.get("post", {}).values()) + [spec.get("when") or ""]
+        for lc in loops.values():
+            for sec in ("invariant", "assume"):
+                texts += list(lc.get(sec, []))
+            for sec in ("define", "ghost_init", "ghost_step", "step_ensures", "havoc"):
+                texts += list(lc.get(sec, {}).values()) + list(lc.get(sec, {}).keys())
+            texts.append(lc.get("variant") or "")
+            texts.append(lc.get("match") or "")
+        return not any(pat.search(t) for t in texts if isinstance(t, str))
+
+    def resolve_role(self, c, fnode, order, loops, role, cache_tag=""):
         if role == "returned":
             names = set()
             stack = list(fnode.body)
@@ -605,17 +629,23 @@ class ContractSet:
                     names.add(s_.value.id)
                 stack.extend(ast.iter_child_nodes(s_))
             return names.pop() if len(names) == 1 else None
-        if role.startswith("loop") and role.endswith(".target"):
-            k = int(role[4:-7])
+        if role.startswith("loop") and (role.endswith(".target") or role.endswith(".iter")):
+            k = int(role[4:role.rindex(".")])
             if not all(l.get("match") for l in loops.values()):
                 node = order[k] if k < len(order) else None
             else:
-                amap = self.align_loops(c, loops, order)
+                try:
+                    amap = self.align_loops(c, loops, order, cache_tag=cache_tag)
+                except Unsupported:
+                    return None
                 inv = {ck: i for i, ck in amap.items()}
                 node = order[inv[k]] if k in inv else None
-            if node is None or not isinstance(node, (ast.For, ast.AsyncFor)) or not isinstance(node.target, ast.Name):
+                if node is None and len(order) == 1 and role.endswith(".iter"):
+                    node = order[0]
+            if node is None or not isinstance(node, (ast.For, ast.AsyncFor)):
                 return None
-            return node.target.id
+            tgt = node.target if role.endswith(".target") else node.iter
+            return tgt.id if isinstance(tgt, ast.Name) else None
         if role.startswith("assigned_from:"):
             piece = role.split(":", 1)[1]
             names = []
@@ -1029,8 +1059,8 @@ class ContractSet:
         c = self.contracts.get(q)
         if I.verifying is not None and I.verifying.split("#")[0] == q:
             c = self.contracts.get(I.verifying) or c
-        if c is None:
-            return None
+        if c is None or not self.merged_loops(c):
+            return self.helper_loop_contract(I, fr, node)
         k = getattr(node, "_pyvc_ord", None)
         if k is None:
             # function inlined without having been numbered
@@ -1066,12 +1096,96 @@ class ContractSet:
                                   f"(the function's loops changed; the contract must be re-attached)")
         return (c, k, lc)
 
+    def helper_loop_contract(self, I, fr, node):
+        """a loop inside a function without contract that the function under verification calls (a loop extracted into a helper):
+        a loop contract of the verified function that none of its own loops takes is attached here by its match key"""
+        if I.verifying is None or getattr(fr, "fnode", None) is None:
+            return None
+        cv = self.contracts.get(I.verifying)
+        if cv is None or cv.kind == "lemma":
+            return None
+        loops_all = {k_: dict(v_) for k_, v_ in self.merged_loops(cv).items()}
+        if not loops_all or not all(l.get("match") for l in loops_all.values()):
+            return None
+        try:
+            own = self.resolve_target(I, cv).node
+        except Unsupported:
+            return None
+        fn_ = fr.fnode
+        if fn_ is own:
+            return None
+        own_order = self.number_loops(own)
+        self.ensure_roles(cv, own)
+        own_loops = cv.loops_eff if cv.loops_eff is not None else loops_all
+        taken = set(self.align_loops(cv, own_loops, own_order).values()) if own_order else set()
+        free = {k_: v_ for k_, v_ in loops_all.items() if k_ not in taken}
+        if not free:
+            return None
+        order = self.number_loops(fn_)
+        k = getattr(node, "_pyvc_ord", None)
+        roles = dict(cv.local_roles)
+        if "#" in cv.target:
+            base = self.contracts.get(cv.target.split("#")[0])
+            if base is not None:
+                roles = {**base.local_roles, **roles}
+        helper_names = Interp.function_locals(fn_)
+        # program locals that the free loop contracts mention and the helper does not have: identified by their roles, in the helper
+        rename = {}
+        for phase in (0, 1):
+            for name, role in roles.items():
+                if name in helper_names or (role.startswith("loop")) != (phase == 1):
+                    continue
+                pat = re.compile(r"\b%s\b" % re.escape(name))
+                if not any(pat.search(str(x)) for lc_ in free.values() for x in self._loop_texts(lc_)):
+                    continue
+                fr_ = {k_: self._rename_loop(v_, rename) for k_, v_ in free.items()}
+                new = None
+                for alt in [role] + (["loop%s.iter" % kk for kk in free] if not role.startswith("loop") else []):
+                    new = self.resolve_role(cv, fn_, order, fr_, alt, cache_tag="@helper")
+                    if new is not None:
+                        break
+                if new is None:
+                    return None
+                rename[name] = new
+        free = {k_: self._rename_loop(v_, rename) for k_, v_ in free.items()}
+        amap = self.align_loops(cv, free, order, cache_tag="@helper:" + (fr.func or ""))
+        ck = amap.get(k)
+        if ck is None:
+            return None
+        lc = dict(free[ck])
+        lc["_rename"] = rename
+        lc["_helper"] = True
+        return (cv, ck, lc)
+
+    @staticmethod
+    def _loop_texts(lc):
+        out = [lc.get("match") or "", lc.get("variant") or ""]
+        for sec in ("invariant", "assume"):
+            out += list(lc.get(sec, []))
+        for sec in ("define", "ghost_init", "ghost_step", "step_ensures", "step_hints", "havoc"):
+            out += list(lc.get(sec, {}).values()) + list(lc.get(sec, {}).keys())
+        out += list(lc.get("modifies", []))
+        return out
+
+    @staticmethod
+    def _rename_loop(lc, rename):
+        if not rename:
+            return dict(lc)
+        lc2 = dict(lc)
+        for sec in ("define", "havoc"):
+            if sec in lc:
+                lc2[sec] = {rename.get(n, n): v for n, v in lc[sec].items()}
+        if lc.get("match"):
+            for old_, new_ in rename.items():
+                lc2["match"] = re.sub(r"\b%s\b" % re.escape(old_), new_, lc2["match"])
+        return lc2
+
     @staticmethod
     def loop_src(node):
         return ast.unparse(node.iter if isinstance(node, (ast.For, ast.AsyncFor)) else node.test)
 
-    def align_loops(self, c, loops, order):
-        key = (c.target, id(order))
+    def align_loops(self, c, loops, order, cache_tag=""):
+        key = (c.target + cache_tag, id(order), tuple(sorted(loops)))
         cache = self.__dict__.setdefault("_align_cache", {})
         if key in cache:
             return cache[key]
@@ -1124,6 +1238,43 @@ class ContractSet:
         return amap
 
     @staticmethod
+    def assigned_only_on_exit(stmts, name):
+        """every assignment to `name` in the loop body is followed, in its own block, by statements that leave the loop
+        (break / return / raise) without any continue: at the head of an iteration the name still has its value from before the loop"""
+        def binds(st):
+            for n_ in ast.walk(st):
+                if isinstance(n_, ast.Name) and isinstance(n_.ctx, (ast.Store, ast.Del)) and n_.id == name:
+                    return True
+                if isinstance(n_, ast.ExceptHandler) and n_.name == name:
+                    return True
+            return False
+
+        def leaves(rest):
+            if not rest or any(isinstance(x, ast.Continue) for st in rest for x in ast.walk(st)):
+                return False
+            return isinstance(rest[-1], (ast.Break, ast.Return, ast.Raise)) and not any(
+                isinstance(x, (ast.For, ast.While, ast.AsyncFor, ast.Try, ast.If)) for st in rest for x in ast.walk(st))
+
+        def block(stmts_):
+            for i_, st in enumerate(stmts_):
+                if isinstance(st, (ast.For, ast.While, ast.AsyncFor)):
+                    if binds(st):
+                        return False
+                    continue
+                if isinstance(st, (ast.If, ast.Try, ast.With, ast.AsyncWith)):
+                    subs = [st.body, getattr(st, "orelse", []), getattr(st, "finalbody", [])] + [h.body for h in getattr(st, "handlers", [])]
+                    heads = [getattr(st, "test", None)] + [it.context_expr for it in getattr(st, "items", [])]
+                    if any(h is not None and binds(h) for h in heads) or any(h.name == name for h in getattr(st, "handlers", []) if h.name):
+                        return False
+                    if not all(block(b_) for b_ in subs if b_):
+                        return False
+                    continue
+                if binds(st) and not leaves(stmts_[i_ + 1:]):
+                    return False
+            return True
+        return block(stmts)
+
+    @staticmethod
     def assigned_names(stmts):
         out = set()
         for s in stmts:
@@ -1159,6 +1310,28 @@ class ContractSet:
     def run_loop(self, I: Interp, lcinfo, node, fr, it=None):
         c, k, lc = lcinfo
         P = I.path
+        P.ghost.setdefault("loops_reached", set()).add((c.target, k))
+        saved = c.rename
+        if lc.get("_rename") is not None:
+            c.rename = lc["_rename"]
+        try:
+            return self._run_loop(I, lcinfo, node, fr, it)
+        finally:
+            c.rename = saved
+            if lc.get("_helper"):
+                # the loop ran in a helper frame: keep its ghosts for final(..) clauses of the verified function
+                g = P.ghost.setdefault("loop_ghosts", {})
+                names_ = list(lc.get("ghost_init", {})) + ["_i"] + list(lc.get("havoc", {}))
+                if isinstance(node, (ast.For, ast.AsyncFor)) and isinstance(node.target, ast.Name):
+                    names_.append(node.target.id)
+                inv_ = {v_: k_ for k_, v_ in (lc.get("_rename") or {}).items()}
+                for n_ in names_:
+                    if n_ in fr.locals and n_.isidentifier():
+                        g[inv_.get(n_, n_)] = fr.locals[n_]
+
+    def _run_loop(self, I: Interp, lcinfo, node, fr, it=None):
+        c, k, lc = lcinfo
+        P = I.path
         tag = f"{c.target}.loop{k}"
         is_for = isinstance(node, (ast.For, ast.AsyncFor))
         outer = None
@@ -1181,7 +1354,8 @@ class ContractSet:
         for n_, src in lc.get("define", {}).items():
             self.check_clause(I, c, f"{tag}.init.define.{n_}", f"({n_}) == ({src})", sfr)
         body_names = self.assigned_names(node.body)
-        hav_names = [n for n in sorted(body_names) if n in fr.locals] + [g for g in lc.get("ghost_init", {}) if g not in body_names]
+        hav_names = [n for n in sorted(body_names) if n in fr.locals and not (n not in lc.get("havoc", {}) and self.assigned_only_on_exit(node.body, n))] \
+            + [g for g in lc.get("ghost_init", {}) if g not in body_names]
         hav_names += [n for n in lc.get("havoc", {}) if n.isidentifier() and n in fr.locals and n not in hav_names]
         hav_types = lc.get("havoc", {})
         which = P.choose(2, f"loop{k}")
